@@ -15,7 +15,7 @@
 (* templates, Inherit chains — are fed to the same monitor by the harness.)   *)
 EXTENDS Naturals, Sequences, FiniteSets, TLC, Json
 
-CONSTANTS Part     \* "expr" | "loader"
+CONSTANTS Part     \* "expr" | "loader" | "interrupt"
 
 Carriers == {"output", "echo", "assign", "capture", "if", "elsif", "unless", "case", "when", "for", "forlimit", "tablerow", "cycle",
              "ternary", "ternarycond", "include_arg", "include_with", "include_for", "render_arg", "render_with", "render_for",
@@ -32,11 +32,18 @@ NameForms == {"a", "dir/a", "dir/sub/a", "a.html", "missing", "dir/missing"}
 Namespaces == {"none", "kwarg", "context"}
 Orders == {<<"sync", "async">>, <<"async", "sync">>, <<"sync", "sync", "async">>, <<"async", "async", "sync">>}
 Uses == {"get_template", "include", "render", "extends"}
-LoaderCells == [kind : LoaderKinds, name : NameForms, ns : Namespaces, order : Orders, use : Uses]
+Globs == {"every", "firstonly"}       \* globals passed with every request, or only with the first one (a cache hit must not keep them)
+LoaderCells == [kind : LoaderKinds, name : NameForms, ns : Namespaces, order : Orders, use : Uses, globs : Globs]
+
+(* INTERRUPT cells: break / continue executed at the top level of a partial, macro or block, inside or outside a loop of the caller; *)
+(* an interrupt crosses an include, but an isolated partial (render, call, block) must turn it into an error                       *)
+InterruptCells == [caller : {"for", "tablerow", "none"}, interrupt : {"break", "continue"}, mode : {"strict", "lax"},
+                   via : {"include", "include_arg", "include_with", "include_for", "render", "render_arg", "render_with", "render_for",
+                          "call", "block", "with", "if", "case", "capture", "liquid"}]
 
 VARIABLES cell, done
 vars == <<cell, done>>
-Init == /\ cell \in (IF Part = "expr" THEN ExprCells ELSE LoaderCells) /\ done = FALSE
+Init == /\ cell \in (IF Part = "expr" THEN ExprCells ELSE IF Part = "loader" THEN LoaderCells ELSE InterruptCells) /\ done = FALSE
 Next == ~done /\ done' = TRUE /\ UNCHANGED cell
 Spec == Init /\ [][Next]_vars
 Emit == done => PrintT(ToJson(cell))
